@@ -511,8 +511,9 @@ def run_binding_case(P, decl, events, vectorized):
             if not seen or any(x != seen[0] for x in seen) or len(inps) != (2 if vectorized else 1):
                 viol.append(("C17:bind:prepare-inconsistent", f"prepare produced {len(inps)} inputs / settings {seen}"))
             exe, npr, mem, envd = seen[0]
-            for ji in inps:
-                if ji.commands[0][0].rsplit(" ", 1)[0] != f"{exe} -P {npr} -M {mem}" or (ji.envars or {}) != (envd or {}) \
+            for n_in, ji in enumerate(inps):
+                want_arg = (arg + "b" if n_in else arg)           # the caller's argument reaches the JobInput
+                if ji.commands[0][0] != f"{exe} -P {npr} -M {mem} {want_arg}" or ji.jid != want_arg or (ji.envars or {}) != (envd or {}) \
                         or tuple(ji.return_files) != ("o.txt",):
                     viol.append(("C17:bind:jobinput-differs-from-bound-job", f"{ji} vs bound {seen[0]}"))
             obs.append((exe, npr, mem, envd))
